@@ -107,6 +107,62 @@ theorem motion_blur_nonneg (psd : ℝ → ℝ) (T f : ℝ) (h : 0 ≤ psd f) : 0
 example : motionBlur (fun x : ℝ => lorentzian x 500 2) 1e-3 1000 ≤ lorentzian (1000:ℝ) 500 2 :=
   motion_blur_le _ _ _ (lorentzian_pos _ _ _ (by norm_num) (by norm_num)).le
 
+/-- Wrappers compose on a model object: a later step wraps the spectral density that already carries every earlier
+    step — none is dropped, whatever the order. -/
+theorem wrap_chain_keeps_earlier_steps (ws : List (Wrapper ℝ)) (w : Wrapper ℝ) (psd : ℝ → ℝ) :
+    wrapChain (ws ++ [w]) psd = w.apply (wrapChain ws psd) := wrapChain_append_single ws w psd
+
+/-- The camera chain `model._motion_blur(T)._alias_model(f_s, n)`: the aliases of the BLURRED spectrum,
+    `Σ_i P(f + i f_s) · sinc²((f + i f_s) T)`. -/
+theorem blur_then_alias_is_sum_of_blurred_shifts (psd : ℝ → ℝ) (T fs : ℝ) (n : ℕ) (f : ℝ) :
+    wrapChain [.blur T, .aliasing fs n] psd f =
+      ∑ i ∈ Finset.Icc (-(n : ℤ)) n,
+        psd (f + (i : ℝ) * fs) * (sinc ((f + (i : ℝ) * fs) * T) * sinc ((f + (i : ℝ) * fs) * T)) := by
+  simp only [wrapChain, List.foldl_cons, List.foldl_nil, Wrapper.apply]
+  rw [alias_is_sum_of_shifts]
+  rfl
+
+/-- The other order, `model._alias_model(f_s, n)._motion_blur(T)`: the aliased spectrum blurred as a whole. -/
+theorem alias_then_blur_is_blurred_sum_of_shifts (psd : ℝ → ℝ) (T fs : ℝ) (n : ℕ) (f : ℝ) :
+    wrapChain [.aliasing fs n, .blur T] psd f =
+      (∑ i ∈ Finset.Icc (-(n : ℤ)) n, psd (f + (i : ℝ) * fs)) * (sinc (f * T) * sinc (f * T)) := by
+  simp only [wrapChain, List.foldl_cons, List.foldl_nil, Wrapper.apply, motionBlur]
+  rw [alias_is_sum_of_shifts]
+
+/-- Any chain of wrappers keeps a non-negative spectrum non-negative. -/
+theorem wrap_chain_nonneg (ws : List (Wrapper ℝ)) (psd : ℝ → ℝ) (hnn : ∀ x, 0 ≤ psd x) :
+    ∀ x, 0 ≤ wrapChain ws psd x := by
+  induction ws using List.reverseRecOn with
+  | nil => simpa [wrapChain] using hnn
+  | append_singleton ws w ih =>
+    intro x
+    rw [wrapChain_append_single]
+    cases w with
+    | blur T => exact motion_blur_nonneg _ _ _ (ih x)
+    | aliasing fs n => exact (ih x).trans (alias_ge_unaliased _ ih _ _ _)
+
+example : 0 ≤ wrapChain [.blur 2e-3, .aliasing 500 20] (fun x : ℝ => lorentzian x 120 0.5) 249 :=
+  wrap_chain_nonneg _ _ (fun x => (lorentzian_pos x 120 0.5 (by norm_num) (by norm_num)).le) _
+
+/-- A motion-blur step never raises, an aliasing step never lowers, the (non-negative) spectrum it wraps. -/
+theorem wrap_chain_step_order (ws : List (Wrapper ℝ)) (psd : ℝ → ℝ) (hnn : ∀ x, 0 ≤ psd x) (T fs : ℝ) (n : ℕ)
+    (f : ℝ) :
+    wrapChain (ws ++ [.blur T]) psd f ≤ wrapChain ws psd f ∧
+      wrapChain ws psd f ≤ wrapChain (ws ++ [.aliasing fs n]) psd f := by
+  rw [wrapChain_append_single, wrapChain_append_single]
+  exact ⟨motion_blur_le _ _ _ (wrap_chain_nonneg ws psd hnn f),
+    alias_ge_unaliased _ (wrap_chain_nonneg ws psd hnn) _ _ _⟩
+
+example : wrapChain ([.blur 2e-3] ++ [.blur 1e-3]) (fun x : ℝ => lorentzian x 120 0.5) 249 ≤
+    wrapChain [.blur 2e-3] (fun x : ℝ => lorentzian x 120 0.5) 249 :=
+  (wrap_chain_step_order _ _ (fun x => (lorentzian_pos x 120 0.5 (by norm_num) (by norm_num)).le) 1e-3 0 0 249).1
+
+/-- Carrying a drag coefficient over (`_set_drag`) changes what the model reports as its drag, not the spectrum: bead
+    radius, densities, the distance to the surface (in metres) and the bulk drag bound at construction all stay. -/
+theorem set_drag_keeps_spectrum (m : Passive ℝ) (g f fc D fd a : ℝ) :
+    (m.setDrag g).call f fc D fd a = m.call f fc D fd a ∧ (m.setDrag g).dragCoeff = g ∧
+      (m.setDrag g).drag = g * m.dragCorrection := ⟨rfl, rfl, rfl⟩
+
 /-- The hydrodynamically correct spectrum in bulk is positive at every positive frequency. -/
 theorem hydro_bulk_pos (f fc D g R rhoS rhoB : ℝ) (hf : 0 < f) (hD : 0 < D) (hg : 0 < g) (hR : 0 < R)
     (hrho : 0 < rhoS) : 0 < hydroPsd f fc D g R rhoS rhoB none := by
@@ -347,5 +403,20 @@ theorem salt_joins_water (t p : ℝ) :
   refine ⟨zpv_zero t, pf_zero t, ?_⟩
   simp only [saltViscosity, zpv_zero, pf_zero]
   norm_num
+
+/-! ## The molarity → molality conversion of the public water functions -/
+
+/-- The bisection that stands for `brentq` in the model keeps the sign change of the residual bracketed: after `k`
+    halvings of `[lo, hi]` the answer is the midpoint of a bracket of width `(hi − lo) / 2^k` whose ends still have
+    residuals of opposite sign — for a continuous residual it is within `(hi − lo) / 2^(k+1)` of a root.  The answer
+    depends on nothing but the residual, i.e. on the temperature, molarity AND pressure of the query. -/
+theorem bisect_brackets_sign_change (g : ℝ → ℝ) (k : ℕ) (lo hi : ℝ) (h : lo ≤ hi) (hlo : 0 ≤ g lo)
+    (hhi : g hi ≤ 0) :
+    ∃ a b, lo ≤ a ∧ a ≤ b ∧ b ≤ hi ∧ b - a = (hi - lo) / 2 ^ k ∧ 0 ≤ g a ∧ g b ≤ 0 ∧
+      bisect g k lo hi = (a + b) / 2 := bisect_bracket g k lo hi h hlo hhi
+
+example : ∃ a b, (0:ℝ) ≤ a ∧ a ≤ b ∧ b ≤ 6 ∧ b - a = (6 - 0) / 2 ^ 100 ∧ 0 ≤ (fun m => 3 - m) a ∧
+    (fun m => 3 - m) b ≤ 0 ∧ bisect (fun m : ℝ => 3 - m) 100 0 6 = (a + b) / 2 :=
+  bisect_brackets_sign_change _ 100 0 6 (by norm_num) (by norm_num) (by norm_num)
 
 end Verif.C20
